@@ -256,22 +256,68 @@ func (t *tokenizer) token() (Tok, bool) {
 	case c == ')' || c == ' ' || c == '\r' || c == '\n':
 		return Tok{}, false
 	default:
-		d := t.segs[t.si].data
-		start := t.pos
-		for t.pos < len(d) && !isAtomEnd(d[t.pos]) {
-			if d[t.pos] == '[' {
-				// section specifier: runs to the matching ']'
-				j := strings.IndexByte(d[t.pos:], ']')
-				if j < 0 {
+		var b strings.Builder
+		for {
+			d := t.segs[t.si].data
+			if t.pos >= len(d) || isAtomEnd(d[t.pos]) {
+				break
+			}
+			if d[t.pos] != '[' {
+				b.WriteByte(d[t.pos])
+				t.pos++
+				continue
+			}
+			// section specifier: runs to the matching ']'; header field names inside it are astrings, so it
+			// may hold quoted strings and literals (the latter continue in the following segments)
+			b.WriteByte('[')
+			t.pos++
+			closed := false
+			for !closed {
+				if t.si >= len(t.segs) {
 					t.err = "unterminated ["
 					return Tok{}, false
 				}
-				t.pos += j + 1
-				continue
+				if t.segs[t.si].lit {
+					b.WriteString(t.segs[t.si].data)
+					t.si++
+					t.pos = 0
+					continue
+				}
+				d = t.segs[t.si].data
+				if t.pos >= len(d) {
+					t.si++
+					t.pos = 0
+					continue
+				}
+				switch ch := d[t.pos]; {
+				case ch == ']':
+					b.WriteByte(']')
+					t.pos++
+					closed = true
+				case ch == '"':
+					j := t.pos + 1
+					for j < len(d) && d[j] != '"' && d[j] != '\r' && d[j] != '\n' {
+						if d[j] == '\\' {
+							j++
+						}
+						j++
+					}
+					if j >= len(d) || d[j] != '"' {
+						t.err = "unterminated quoted string"
+						return Tok{}, false
+					}
+					b.WriteString(d[t.pos : j+1])
+					t.pos = j + 1
+				case ch == '\r' || ch == '\n':
+					t.err = "unterminated ["
+					return Tok{}, false
+				default:
+					b.WriteByte(ch)
+					t.pos++
+				}
 			}
-			t.pos++
 		}
-		return Tok{Kind: 'a', S: d[start:t.pos]}, true
+		return Tok{Kind: 'a', S: b.String()}, true
 	}
 }
 
